@@ -3,7 +3,7 @@ use vstd::prelude::*;
 use vstd::std_specs::iter::IteratorSpec;
 verus! {
 //@include spec/prelude.rs
-broadcast use {axiom_string_ext, axiom_str_ext, axiom_str_of, axiom_vec_ext, axiom_vec_of, axiom_display_string, axiom_display_str, axiom_display_usize};
+broadcast use {axiom_string_ext, axiom_str_ext, axiom_str_of, axiom_vec_ext, axiom_vec_of, axiom_display_string, axiom_display_str, axiom_display_usize, axiom_display_i32};
 //@include spec/indexset.rs
 //@include units/fol_types.inc
 //@include spec/sem.rs
@@ -12,9 +12,14 @@ broadcast use {axiom_string_ext, axiom_str_ext, axiom_str_of, axiom_vec_ext, axi
 //@include units/fol_lib.inc
 //@include spec/core_lemmas.rs
 //@include spec/fvlink_lemmas.rs
+//@include spec/block_lemmas.rs
+//@include spec/simp_spec.rs
 //@include spec/fresh_lemmas.rs
 //@include spec/tau_spec.rs
+//@include spec/taub_spec.rs
+//@include spec/rule_spec.rs
 //@include spec/nat_spec.rs
+//@include spec/nathead_spec.rs
 
 pub mod fol { pub use super::*; }
 
@@ -71,6 +76,73 @@ pub open spec fn spec_p2f(t: asp::Term, int_vars: Seq<String>) -> Option<General
 //@     ensures z == GeneralTerm::IntegerTerm(d20_x)
 //@end
 
+// ---- heads: fresh integer variables for interval arguments -------------------------------------------------------------------
+pub open spec fn names_seq(vs: Seq<asp::Variable>) -> Seq<Seq<char>> { vs.map_values(|v: asp::Variable| v.0@) }
+pub proof fn lemma_names_seq(vs: Seq<asp::Variable>, x: asp::Variable)
+    ensures vs.contains(x) == names_seq(vs).contains(x.0@),
+{
+    let ns = names_seq(vs);
+    if vs.contains(x) { let i = choose|i: int| 0 <= i < vs.len() && vs[i] == x; assert(ns[i] == x.0@); }
+    if ns.contains(x.0@) { let i = choose|i: int| 0 <= i < ns.len() && ns[i] == x.0@; assert(vs[i].0@ == x.0@); assert(vs[i] == x); }
+}
+
+//@fn src/translating/formula_representation/natural.rs :: fn fresh_variables_for_head_atom
+//@ .ret r
+//@ .fmt
+//@ .attr #[verifier::loop_isolation(false)]
+//@ .spec
+//@     requires terms_var_occ(a.terms@, a.terms@.len() as int) < 0x7fff_ffff,     // the search counter `j` is an i32: an atom with 2^31 - 1 or more variable occurrences is out of scope (recorded assumption)
+//@     ensures head_names_ok(r@, a.terms@, a.terms@.len() as int),
+//@ .hint before "let terms = &a.terms;"
+//@     proof { reveal_strlit("N"); reveal_strlit("_"); axiom_indexset_len(&taken_vars); vstd::std_specs::vec::axiom_spec_len(&a.terms); }
+//@ .loop 1 as it
+//@     invariant
+//@         d14_k0 == it.index@, 0 <= it.index@ <= a.terms@.len(),
+//@         it.seq().len() == a.terms@.len(), forall|q: int| 0 <= q < a.terms@.len() ==> *it.seq()[q] == a.terms@[q],
+//@         head_names_ok(fresh_vars@, a.terms@, it.index@ as int),
+//@ .hint before "if !is_term_regular_of_first_kind(term)"
+//@     let ghost f0 = fresh_vars@;
+//@     let ghost pos0 = nonreg_positions(a.terms@, i as int);
+//@     proof {
+//@         assert(*term == a.terms@[i as int]);
+//@         // a name that is not taken is not the name of a variable of the atom
+//@         assert forall|x: asp::Variable, key: VKey| !taken_vars@.contains(x) && #[trigger] terms_in(a.terms@, key) implies key.0 != #[trigger] x.0@ by {
+//@             if key.0 == x.0@ {
+//@                 assert(has_key(taken_vars@, key));
+//@                 let q = choose|q: int| 0 <= q < taken_vars@.len() && #[trigger] asp_var_key(taken_vars@[q]) == key;
+//@                 assert(taken_vars@[q] == x);
+//@             }
+//@         }
+//@     }
+//@ .loop 2
+//@     invariant
+//@         0 <= j, j <= taken_vars@.len(), fresh_vars@ == f0,
+//@         forall|q: nat| q < j ==> names_seq(taken_vars@).contains(#[trigger] cand(n_prefix(i as nat), q)),
+//@     decreases taken_vars@.len() - j,
+//@ .hint before "j += 1;"
+//@     proof {
+//@         assert forall|x: asp::Variable| x.0@ == cand(n_prefix(i as nat), j as nat) && #[trigger] taken_vars@.contains(x)
+//@             implies names_seq(taken_vars@).contains(cand(n_prefix(i as nat), j as nat)) by { lemma_names_seq(taken_vars@, x); }
+//@         assert(names_seq(taken_vars@).contains(cand(n_prefix(i as nat), j as nat)));
+//@         lemma_taken_bound(n_prefix(i as nat), names_seq(taken_vars@), 0, (j + 1) as nat);
+//@     }
+//@ .hint before "} else { let mut j = 0;"
+//@     proof {
+//@         let last = fresh_vars@.last();
+//@         assert(!taken_vars@.contains(asp::Variable(last)));
+//@         assert forall|key: VKey| #[trigger] terms_in(a.terms@, key) implies key.0 != last@ by { assert(asp::Variable(last).0@ == last@); }
+//@         lemma_head_push(f0, fresh_vars@, a.terms@, i as int);
+//@     }
+//@ .hint before "break;"
+//@     proof {
+//@         let last = fresh_vars@.last();
+//@         assert(last@ == cand(n_prefix(i as nat), j as nat));
+//@         assert(!taken_vars@.contains(asp::Variable(last)));
+//@         assert forall|key: VKey| #[trigger] terms_in(a.terms@, key) implies key.0 != last@ by { assert(asp::Variable(last).0@ == last@); }
+//@         lemma_head_push(f0, fresh_vars@, a.terms@, i as int);
+//@     }
+//@end
+
 // ---- mu: natural where possible, tau* otherwise (callees are stand-ins that record their arguments) ----
 pub uninterp spec fn spec_natural_rule(r: asp::Rule) -> Option<Formula>;
 pub uninterp spec fn spec_tau_star_rule(r: asp::Rule, globals: Seq<String>) -> Formula;
@@ -112,9 +184,13 @@ impl Mu for asp::Program {
 } // verus!
 pub mod asp {
     use vstd::prelude::*;
+    use vstd::std_specs::iter::IteratorSpec;
+    use super::{IndexSet, seq_extend, seq_insert, lemma_seq_extend_contains, VKey, asp_in_term, asp_var_key, has_key, terms_in, af_in,
+        lemma_has_key_extend, lemma_has_key_contains, head_pred, head_args, head_in, body_in, rule_in, var_occ, terms_var_occ, lemma_extend_len};
     verus! {
     broadcast use {super::axiom_string_ext, super::axiom_vec_ext};
 //@include units/asp_types.inc
+//@include units/asp_vars.inc
     } // verus!
 }
 pub mod syntax_tree { pub mod asp { pub use crate::asp as mini_gringo; } pub mod fol { pub mod sigma_0 { pub use crate::*; } } }
